@@ -11,6 +11,10 @@ def _tag(line, out):
     t = fmt + ":" + res
     if " w:" in line:
         t += "+write-fault"
+    i = line.rfind(" v:")
+    if i >= 0:
+        t += "+via-" + {"x": "Extract", "a": "ExtractArchive", "am": "ExtractArchiveWithMask",
+                        "missing": "Archive-missing-file", "cut": "Archive-cut-file"}.get(line[i + 3:].split(" ")[0], "?")
     return t
 
 
@@ -57,6 +61,15 @@ def run(ctx):
         "listing a directory after entries beneath it (there extract_reproduces_distinct applies: everything present "
         "as recorded except that such a directory keeps the mode MkdirAll gave it; extract_nothing_else gives "
         "exactness there)",
+    ]
+    ctx.modelled += [
+        "API surface: every exported function of both packages is exercised — ExtractWithMask (4 lines in 5), and "
+        "Extract / ExtractArchive / ExtractArchiveWithMask (1 line in 5, chosen by a hash of the line and recorded in "
+        "it as v:<k>; the archive is written to a file outside the sandbox for the *Archive* forms); the model's "
+        "wrappers are Ex.tarExtractDefault / tarExtractArchive / tarExtractArchiveWithMask and their zip twins "
+        "(default mask Ex.defaultMask = 0o777); a missing archive path and an archive file cut to 100 bytes must give "
+        "err with nothing created; the harness also counts its open descriptors around the call (FD-LEAK = the "
+        "archive file was not closed)",
     ]
     ctx.lean(props=["Props.C19"], drivers=["drv_c19"])
     ctx.harness("./cmd/c19")
